@@ -581,12 +581,8 @@ func bvbin(op string, a, b *Term) *Term {
 			return BVC64(w, 0)
 		}
 	}
-	switch op {
-	case "bvadd", "bvmul", "bvand", "bvor", "bvxor":
-		if a.id > b.id {
-			a, b = b, a
-		}
-	}
+	// operands keep their source order: specifications written in the order of the standard
+	// then stay structurally close to the code, which the solvers' rewriters exploit
 	return mk(op, a.Sort, a, b)
 }
 
